@@ -26,8 +26,9 @@ def opC11Renders (j : Json) : Except String Json := do
                      ← (← getArrL sj "subs").mapM subPkgOf⟩
   let which ← (← j.getObjVal? "templates").getStr?
   let ts := (if which == "ads" then Pinned.adsTemplates else Pinned.templates).map String.toList
-  let out := renders o sh ts
-  pure (Json.mkObj [("files", jarr (out.map fun p => jstr ("/".toList.intercalate p)))])
+  let out := responseNames o sh ts
+  pure (Json.mkObj [("files", jarr (out.map fun p => jstr ("/".toList.intercalate p))),
+                    ("rendered", Json.num (JsonNumber.fromNat (renders o sh ts).length))])
 
 open Model.Emit in
 def opC11Filename (j : Json) : Except String Json := do
